@@ -424,7 +424,7 @@ class IncompleteHashTree(CompleteBinaryTreeMixin, list):
             # first we provisionally add all hashes to the tree, comparing
             # any duplicates
             for i,h in new_hashes.items():
-                if self[i]:
+                if self[i] is not None:
                     if self[i] != h:
                         raise BadHashError("new hash %r does not match "
                                            "existing hash %r at %r"
@@ -459,7 +459,7 @@ class IncompleteHashTree(CompleteBinaryTreeMixin, list):
                     # make sure we know right from left
                     leftnum, rightnum = sorted([i, siblingnum])
                     new_parent_hash = pair_hash(self[leftnum], self[rightnum])
-                    if self[parentnum]:
+                    if self[parentnum] is not None:
                         if self[parentnum] != new_parent_hash:
                             raise BadHashError("h([%d]+[%d]) != h[%d]" %
                                                (leftnum, rightnum, parentnum))
@@ -474,7 +474,7 @@ class IncompleteHashTree(CompleteBinaryTreeMixin, list):
                     this_level.discard(siblingnum)
             # we're done!
 
-        except (BadHashError, NotEnoughHashesError):
+        except (BadHashError, NotEnoughHashesError, IndexError):
             for i in remove_upon_failure:
                 self[i] = None
             raise
